@@ -321,6 +321,8 @@ func dispatch(job Job) *JobRes {
 		return crashJob(job)
 	case "window":
 		return windowJobRes(runWindow(job.Seed, job.Case, job.Tier, job.Profile))
+	case "cgate":
+		return cgateJobRes(runCGate(job.Seed, job.Case, job.Tier))
 	case "dgate":
 		return dgateJobRes(runDGate(job.Seed, job.Case, job.Tier))
 	case "inotable":
@@ -539,7 +541,7 @@ func propSpecs() map[string]PropSpec {
 		Rule: "block-recycling sequences on small disks (pattern f(write id, offset) never zero), shrink to aligned/unaligned sizes and regrow, free-space sweep at the end; every READ and whole-tree dump compared with the reference; distinct = distinct (procedure, outcome, argument class) triples",
 		Plan: withCrash(seqPlan("C12", 90, 900), "C12", 4, 40)})
 	add(PropSpec{ID: "C01", Level: "fault_enumeration", Classes: []string{"crash"},
-		Rule: "each seeded workload (all mutating RPCs, three stability levels, multi-block writes, truncations, big-file removal) is recorded on the crash disk; EVERY prefix cut of its trace, one (thorough: three) lossy image(s) per cut with un-barriered writes lost/reordered, and cuts of sampled recovery runs (depth 2) are recovered by the real MakeNfs; the recovered tree must equal reference state S_j for some lo<=j<=hi, handles preserved, fsck clean, continuation workload in lock-step with S_j; distinct = distinct (recovered tree, on-disk state, lo, hi) with lo<hi (an operation in flight or an unstable suffix)",
+		Rule: "each seeded workload (all mutating RPCs, three stability levels, multi-block writes, truncations, big-file removal) is recorded on the crash disk; EVERY prefix cut of its trace, one (thorough: three) lossy image(s) per cut with un-barriered writes lost/reordered, and cuts of sampled recovery runs (depth 2) are recovered by the real MakeNfs; the recovered tree must equal reference state S_j for some lo<=j<=hi, handles preserved, fsck clean, continuation workload in lock-step with S_j; concurrent traces (2-4 clients confined to their own directories, journal-rejected requests next to them): every client's subtree a prefix state of its own sequence within [durable, issued], combination consistent with real time; directed: each kind of stable request parked at its pre-commit/first-release/post-commit hook while a journal-rejected and an unstable request run, image at the instant of its reply recovered; distinct = distinct (recovered tree, on-disk state, lo, hi) with lo<hi (an operation in flight or an unstable suffix)",
 		Plan: func(tier string, seed uint64) []Job {
 			js := append(withCrash(noJobs, "C01", 8, 150)(tier, seed), Job{Engine: "probe01", Profile: "C01", Seed: seed})
 			n := 6
@@ -549,10 +551,13 @@ func propSpecs() map[string]PropSpec {
 			for i := 0; i < n; i++ {
 				js = append(js, Job{Engine: "cns", Profile: "C01", Seed: seed, Case: i})
 			}
+			for i := 0; i < 4; i++ {
+				js = append(js, Job{Engine: "cgate", Profile: "C01", Seed: seed, Case: i})
+			}
 			return js
 		}})
 	add(PropSpec{ID: "C07", Level: "fault_enumeration", Classes: []string{"crash", "verf"},
-		Rule: "write-heavy workloads over several files mixing UNSTABLE/DATA_SYNC/FILE_SYNC, COMMIT and metadata operations, Unstable option on/off, clean restarts without flush; every prefix cut + lossy cuts recovered: state must be a reference prefix >= everything acknowledged stable (loss only as a suffix); every WRITE/COMMIT reply checked for committed level and verifier (constant per instance, different across instances); distinct as C01",
+		Rule: "write-heavy workloads over several files mixing UNSTABLE/DATA_SYNC/FILE_SYNC, COMMIT and metadata operations, Unstable option on/off, clean restarts without flush; every prefix cut + lossy cuts recovered: state must be a reference prefix >= everything acknowledged stable (loss only as a suffix); every WRITE/COMMIT reply checked for committed level and verifier (constant per instance, different across instances); concurrent writers with COMMITs and journal-rejected requests next to them; the directed commit-gate runs of C01; distinct as C01",
 		Plan: func(tier string, seed uint64) []Job {
 			js := withCrash(noJobs, "C07", 8, 150)(tier, seed)
 			n := 8
@@ -561,6 +566,9 @@ func propSpecs() map[string]PropSpec {
 			}
 			for i := 0; i < n; i++ {
 				js = append(js, Job{Engine: "ccrash", Profile: "C07", Seed: seed, Case: i})
+			}
+			for i := 0; i < 4; i++ {
+				js = append(js, Job{Engine: "cgate", Profile: "C07", Seed: seed, Case: i})
 			}
 			return js
 		}})
